@@ -276,6 +276,9 @@ class SSH_Socket(ReadBuf, WriteBuf):
             if check_size % self.__block_size != 0:
                 self.__outputbuffer.fail('[exception] invalid ssh packet (block size)').write()
                 sys.exit(exitcodes.CONNECTION_ERROR)
+            if payload_length < (5 if sshv == 1 else 1):  # A packet must at least hold the message type (and the checksum for SSHv1).
+                self.__outputbuffer.fail('[exception] invalid ssh packet (payload length)').write()
+                sys.exit(exitcodes.CONNECTION_ERROR)
             self.ensure_read(payload_length)
             if sshv == 1:
                 payload = self.read(payload_length - 4)
